@@ -32,7 +32,7 @@ ASSUMPTIONS = ['"well-formed" = what docs/json.rst allows and the loaders accept
                'Raman fibres are generated below the maximum span length (splitting one is not described)',
                'a lumped loss that falls exactly between two split spans may be carried as input attenuation of the '
                'second one']
-REQUIRED_COUNTERS = {'designs_checked': 60, 'amplifiers_checked': 300, 'fibres_checked': 300, 'spans_checked': 200,
+REQUIRED_COUNTERS = {'designs_after_extension': 20, 'designs_checked': 60, 'amplifiers_checked': 300, 'fibres_checked': 300, 'spans_checked': 200,
                      'split_fibres_checked': 10, 'inserted_amplifiers': 100}
 CASE_TIMEOUT = {'quick': 200, 'thorough': 400}
 
@@ -109,7 +109,7 @@ def reach(adj):
     return out
 
 
-def check_design(ctx, ej, tj, equipment, network):
+def check_design(ctx, ej, tj, equipment, network, redesign=False):
     span = ej['Span'][0]
     power_mode = span.get('power_mode', True)
     padding = span.get('padding', 10)
@@ -252,7 +252,9 @@ def check_design(ctx, ej, tj, equipment, network):
             if float(x['position']) - k * Lkm0 < 1e-6:
                 moved[k] = moved.get(k, 0.0) + x['loss']
         ctx.count('split_att_in_checks')
-        for k, p in enumerate(ordered):
+        # (on a second design of the same object the padding of the first design is input data, and EOL is added to it:
+        # that repetition is C17's subject, listed there)
+        for k, p in enumerate([] if redesign else ordered):
             extra = p.params.att_in - (att0 if k == 0 else 0.0) - moved.get(k, 0.0)
             if extra < -1e-9 or (extra > 1e-9 and abs(p.loss - padding) > 1e-6):
                 ctx.violation('split-att-in', f'{e["uid"]}: part {k + 1}/{n_parts} has input attenuation '
@@ -335,6 +337,49 @@ def build_inputs(rng, kind):
             if e['type'] == 'Fiber' and rng.random() < 0.3 and not e['params'].get('lumped_losses'):
                 e['params']['length'] = G.pick(rng, [0.001, 0.05, 0.9])
     return ej, tj, sim
+
+
+def extend_network(rng, tj, equipment, network):
+    """Adds a new site X (ROADM + transceiver) behind bare fibres of an existing ROADM to the network *object*; returns
+    the topology description of the extended network."""
+    roadms = [e['uid'] for e in tj['elements'] if e['type'] == 'Roadm']
+    r = G.pick(rng, roadms)
+    site = r.replace('roadm ', '')
+
+    def meta(u):
+        return {'location': {'city': u, 'region': '', 'latitude': 0, 'longitude': 0}}
+
+    def fib(uid):
+        return {'uid': uid, 'type': 'Fiber', 'type_variety': 'SSMF', 'metadata': meta(uid),
+                'params': {'length': G.pick(rng, [35, 80, 120, 147, 163, 230, 310]), 'length_units': 'km',
+                           'loss_coef': 0.2, 'con_in': None, 'con_out': None}}
+    els = [{'uid': 'trx X', 'type': 'Transceiver', 'metadata': meta('trx X')},
+           {'uid': 'roadm X', 'type': 'Roadm', 'metadata': meta('roadm X')}]
+    out_chain, in_chain = [r], ['roadm X']
+    for chain, a, b in ((out_chain, site, 'X'), (in_chain, 'X', site)):
+        if rng.random() < 0.3:
+            f = {'uid': f'fused ({a} → {b})', 'type': 'Fused', 'params': {'loss': 0.5}, 'metadata': meta('f')}
+            els.append(f)
+            chain.append(f['uid'])
+        for k in range(rng.randint(1, 2)):
+            f = fib(f'fiber ({a} → {b})-x{k}')
+            els.append(f)
+            chain.append(f['uid'])
+    out_chain.append('roadm X')
+    in_chain.append(r)
+    cxs = [('trx X', 'roadm X'), ('roadm X', 'trx X')] + list(zip(out_chain[:-1], out_chain[1:])) + \
+        list(zip(in_chain[:-1], in_chain[1:]))
+    ext = {'elements': els, 'connections': [{'from_node': a, 'to_node': b} for a, b in cxs]}
+    stub = {'elements': [{'uid': r, 'type': 'Roadm', 'metadata': meta(r)}] + deepcopy(els),
+            'connections': ext['connections']}
+    extra = G.make_network(stub, equipment)
+    existing = {n.uid: n for n in network.nodes()}
+    new_nodes = {n.uid: n for n in extra.nodes() if n.uid not in existing}
+    nodes = {**existing, **new_nodes}
+    network.add_nodes_from(new_nodes.values())
+    for a, b, data in extra.edges(data=True):
+        network.add_edge(nodes[a.uid], nodes[b.uid], **data)
+    return {'elements': tj['elements'] + els, 'connections': tj['connections'] + ext['connections']}
 
 
 def run_known(case, ctx):
@@ -420,6 +465,23 @@ def run_case(case, ctx):
     finally:
         G.reset_sim_params(None)
     inserted = check_design(ctx, ej, tj, equipment, network)
+    if case['kind'] in ('mesh', 'long', 'p2p') and rng.random() < 0.25 and \
+            any(e['type'] == 'Roadm' for e in tj['elements']) and not any(v['mechanism'] is None for v in ctx.violations):
+        # history: the designed network object is extended with a new site behind bare fibres (a what-if study) and
+        # designed again: the extended topology is well formed, so the second design has to complete it
+        tj2 = extend_network(rng, tj, equipment, network)
+        ctx.dump['extension'] = {'elements': tj2['elements'][len(tj['elements']):],
+                                 'connections': tj2['connections'][len(tj['connections']):]}
+        try:
+            G.design(equipment, network)
+        finally:
+            G.reset_sim_params(None)
+        before = len(ctx.violations)
+        check_design(ctx, ej, tj2, equipment, network, redesign=True)
+        for v in ctx.violations[before:]:
+            v['msg'] = '[second design after extending the designed network] ' + v['msg']
+        ctx.count('designs_after_extension')
+        ctx.cls('history:design-extend-design')
     n_split = sum(1 for n in network.nodes() if isinstance(n, Fiber) and '_(' in n.uid)
     ctx.cls(f'kind:{case["kind"]}', 'mode:power' if ej['Span'][0].get('power_mode', True) else 'mode:gain',
             f'eol:{ej["Span"][0].get("EOL", 0)}', 'split:yes' if n_split else 'split:no')
